@@ -334,7 +334,12 @@ impl PhoneticSuggestion {
     ) {
         // Build the Regex string.
         self.regex_parser.convert_regex_into(word, &mut self.regex);
-        let rgx = Regex::new(&self.regex).unwrap();
+        // The pattern of a very long word can exceed the size limit of the regex engine,
+        // such a word has no dictionary suggestions.
+        let rgx = match Regex::new(&self.regex) {
+            Ok(rgx) => rgx,
+            Err(_) => return,
+        };
 
         suggestions.extend(
             self.table
